@@ -290,7 +290,7 @@ pub fn judge(ctx: &mut Ctx, path_of_uri: &str, registered: &[usize], o: &Outcome
 
 pub fn run(cfg: &RunCfg) -> Ctx {
     let mut all = Ctx::new();
-    all.merge(par_cases(cfg, "routes", cfg.n(3000, 16 * 20_000), || (), |_, rng, ctx, _| case(rng, ctx)));
+    all.merge(par_cases(cfg, "routes", cfg.n(12_000, 16 * 20_000), || (), |_, rng, ctx, _| case(rng, ctx)));
     for k in ["path.exact", "path.case-flip", "path.method-extended", "path.service-extended", "path.extra-segment", "path.empty-segment", "path.middle-segment", "path.trailing-slash", "path.percent-method", "path.cross-method", "path.query",
         "style.0", "style.1", "style.2", "observed.handler_runs", "observed.unimplemented"] {
         all.floor(k, 5);
